@@ -288,6 +288,17 @@ func (db *DB) basicExport(ctx context.Context, config *client.BackupConfig) (err
 								if foreignDoc.ID().String() == foreignDocID.String() {
 									delete(oldForeignDoc, field.Name+request.RelatedObjectID)
 								}
+								// a reference of the foreign document to itself is not part of its new docID
+								// (as when that document is exported itself, see isSelfReference below)
+								for _, foreignField := range foreignCol.Schema().Fields {
+									if foreignField.Kind.IsObject() && !foreignField.Kind.IsArray() {
+										foreignFieldKey := foreignField.Name + request.RelatedObjectID
+										if oldForeignDoc[foreignFieldKey] == foreignDoc.ID().String() {
+											delete(oldForeignDoc, foreignFieldKey)
+										}
+									}
+								}
+
 								if foreignDoc.ID().String() == doc.ID().String() {
 									isSelfReference = true
 									refFieldName = field.Name + request.RelatedObjectID
